@@ -3,6 +3,7 @@ package sim
 import (
 	"fmt"
 	"io"
+	"strings"
 	"time"
 
 	xmpp "gosrc.io/xmpp"
@@ -20,6 +21,8 @@ type c18Scenario struct {
 	Reconnect  bool       `json:"reconnect_in_callback"`
 	TLS        bool       `json:"tls"`
 	FailAt     int        `json:"fail_keepalive_k,omitempty"`
+	OnTick     bool       `json:"end_on_a_tick,omitempty"`
+	RefuseDial bool       `json:"reconnection_refused,omitempty"`
 	EndAfterNs int64      `json:"end_after_ns,omitempty"`
 	Ticks      int        `json:"observe_ticks"`
 	LatencyNs  int64      `json:"latency_ns"`
@@ -61,6 +64,14 @@ func runC18(e *Engine, g G, o RunOpt) RunInfo {
 	sc.EndAfterNs = int64(sc.Ticks-1)*int64(base) + int64(base)*int64(frac)/1000
 	sc.EndAfterNs = sc.EndAfterNs/int64(time.Millisecond)*int64(time.Millisecond) + int64(500*time.Microsecond)
 	sc.LatencyNs = []int64{0, int64(3*time.Millisecond) + 1, int64(200*time.Millisecond) + 1}[g.N("latency", 3)]
+	// ... or exactly on one: the session ends while a keepalive is due or in flight
+	// ("session end at any time relative to the ticker")
+	if sc.End != "none" && sc.End != "ka-write-fails" && !sc.Block && !sc.Busy && g.Pct("end-on-tick", 25) {
+		sc.OnTick = true
+		sc.EndAfterNs = int64(sc.Ticks) * sc.IntervalNs
+		sc.LatencyNs = 0
+		sc.RefuseDial = sc.Reconnect && g.Pct("reconnection-refused", 50)
+	}
 	e.Net.Latency = time.Duration(sc.LatencyNs)
 	interval := time.Duration(sc.IntervalNs)
 
@@ -115,6 +126,9 @@ func runC18(e *Engine, g G, o RunOpt) RunInfo {
 			s.W.Client.SetHandler(s.W.EventRecorder(func(ev xmpp.Event) error {
 				if xmpp.VerifEventState(ev) == xmpp.StateDisconnected && !reconnected {
 					reconnected = true
+					if sc.RefuseDial {
+						e.Net.DialPlan = func(int) Dial { return DialRefuse }
+					}
 					err := s.W.Client.Resume()
 					e.Logf("app.reconnect", "Resume from the Disconnected callback: %v", err)
 					if err == nil && len(s.Srv.Conns) == 2 {
@@ -249,7 +263,8 @@ func runC18(e *Engine, g G, o RunOpt) RunInfo {
 	expect := 0
 	for i := 1; ; i++ {
 		at := t0 + time.Duration(i)*interval
-		if at > upTo {
+		if at > upTo || (sc.OnTick && at == upTo) {
+			// a keepalive due at the very instant the session ends may or may not be written
 			break
 		}
 		expect++
@@ -296,7 +311,7 @@ func runC18(e *Engine, g G, o RunOpt) RunInfo {
 	}
 	if sc.End != "none" && !sc.Reconnect {
 		for _, lt := range live {
-			if !lt.Harness && siteOf(lt) == "client.go:429" {
+			if !lt.Harness && strings.Contains(lt.Stack, "xmpp.keepalive(") {
 				e.Violate("C18", "keepalive-goroutine-left", "keepalive goroutine still alive 3 intervals after the session ended (%s)", lt.Header)
 			}
 		}
@@ -320,7 +335,9 @@ func runC18(e *Engine, g G, o RunOpt) RunInfo {
 				break
 			}
 		}
-		// and nothing is written to the dead connection any more
+		if cli2.IsClosed() {
+			e.Violate("C18", "new-connection-closed", "the connection re-established at %v was closed although nothing failed on it", t1)
+		}
 		e.Probe("c18.reconnect_in_callback")
 	}
 	if expect > 0 {
